@@ -152,6 +152,28 @@ CHECKS = {
              'operators must return the deciding operand object itself. Complete for the shapes and probe counts stated.',
         note='trusted: the order model in c09.py; probes return a Decimal subclass accepting every operator',
         design='4/C09'),
+    'C11': dict(
+        engine='E3',
+        technique='explicit-state BFS over call sequences on one parser, each history replayed on a pristine clone and compared call by '
+                  'call with fresh-parser-per-call execution; states deduplicated on a generic dump of parser + lexer + LALR driver',
+        text='Every sequence up to depth 2/3 over 94 calls (parse / eval / list_names fully consumed, abandoned, never started; valid, '
+             'lexically and syntactically invalid incl. unbalanced and premature end, runtime / in-lambda / ops-limit failures, reserved '
+             'words, stateful sources; fresh and two persistent names mappings), then 35 state-bearing calls one level deeper, is run on '
+             'one parser and, in parallel, with a brand-new parser for every call; results, exception class + message and persistent '
+             'names must be equal, and after an exception a battery of five calls must give the pristine answers.',
+        note='trusted: pristine clones share only the big static LALR/regex tables (verified unchanged per task)',
+        design='4/C11'),
+    'C17': dict(
+        engine='E3',
+        technique='explicit-state BFS over call sequences run in lock-step on a parser with a parse cache (7 cache kinds) and one '
+                  'without; states deduplicated on cache contents + names + last result',
+        text='Every sequence up to depth 2/3 (+1 over container / lambda / host-mutation actions) of parse / eval over repeated, '
+             'near-duplicate (blank / newline / form-feed), failing, literal-container and lambda sources, fresh / persistent names, three '
+             'budgets, host deep-mutation of the last result and a host rebinding, for each cache kind (dict, LRU(1), LRU(2), evict-all, '
+             'refuse-long-keys, pre-warmed by parse / eval); per-call results, errors, names and parsed trees must equal the uncached '
+             'parser and cached trees must be structurally unchanged since insertion.',
+        note='trusted: the uncached parser as reference (its own history independence is C11)',
+        design='4/C17'),
 }
 
 NOT_YET = {}
